@@ -22,6 +22,8 @@ struct Part {
     salts: Vec<String>,
     digests: Vec<String>,
     decoys: Vec<String>,
+    clone_groups: u64,
+    clone_groups_frozen: u64,
     min_salt_len: usize,
     salt_or: u8,
     salt_and: u8,
@@ -158,6 +160,32 @@ fn run_part(n: u64, offset: u64) -> Part {
             }
         }
     }
+    // one prepared issuer, cloned per issuance (a template credential): the clones must not share their random choices -
+    // the positions of the claims' digests in the top-level list differ from clone to clone
+    for g in 0..(n / 40).max(2) {
+        let _ = g;
+        let mut iss = match sdjwt::Issuer::new(json!({"c1": 1, "c2": 2, "c3": 3, "c4": 4, "c5": 5, "keep": 0})) { Ok(i) => i, Err(_) => continue };
+        for p in ["/c1", "/c2", "/c3", "/c4", "/c5"] {
+            iss.disclosable(p);
+        }
+        iss.header(sdjwt::Header::new(sdjwt::Algorithm::HS256));
+        let mut vectors: Vec<Vec<usize>> = Vec::new();
+        for _ in 0..6 {
+            let mut c = iss.clone();
+            let token = match catch_unwind(AssertUnwindSafe(|| c.encode(&key))) { Ok(Ok(t)) => t, _ => continue };
+            let segs: Vec<&str> = token.split('~').collect();
+            let payload = match segs[0].split('.').nth(1).and_then(indep::decode_json) { Some(p) => p, None => continue };
+            let top: Vec<String> = payload["_sd"].as_array().map(|a| a.iter().filter_map(|x| x.as_str().map(String::from)).collect()).unwrap_or_default();
+            let v: Vec<usize> = segs[1..segs.len() - 1].iter().filter_map(|d| { let h = indep::hash("sha-256", d); top.iter().position(|x| *x == h) }).collect();
+            vectors.push(v);
+        }
+        if vectors.len() == 6 && vectors[0].len() == 5 {
+            part.clone_groups += 1;
+            if vectors.iter().all(|v| *v == vectors[0]) {
+                part.clone_groups_frozen += 1;
+            }
+        }
+    }
     part
 }
 
@@ -192,6 +220,8 @@ pub fn exec_history(input: &Value) -> Value {
         decoys.extend(p.decoys);
         sum.issuances += p.issuances;
         sum.min_salt_len = sum.min_salt_len.min(p.min_salt_len);
+        sum.clone_groups += p.clone_groups;
+        sum.clone_groups_frozen += p.clone_groups_frozen;
         sum.salt_or |= p.salt_or;
         sum.salt_and &= p.salt_and;
         for (k, seen) in p.salt_values.iter().enumerate() {
@@ -223,6 +253,7 @@ pub fn exec_history(input: &Value) -> Value {
         "min_salt_bytes": if sum.min_salt_len == usize::MAX { 0 } else { sum.min_salt_len },
         "salt_bits_constant": (!(sum.salt_or) | sum.salt_and).count_ones(),
         "salt_byte_values_seen": sum.salt_values.iter().filter(|b| **b).count(),
+        "clone_groups": sum.clone_groups, "clone_groups_frozen": sum.clone_groups_frozen,
         "dup_salts": dup_salts, "dup_digests": dup_digests, "dup_decoys": dup_decoys, "decoy_equals_real": decoy_is_real,
         "decoy_count_violations": sum.count_violations, "decoy_form_violations": sum.bad_form,
         "lists_seen": sum.lists_seen, "lists_in_marking_order": sum.marking_order,
